@@ -6,6 +6,8 @@ package main
 import (
 	"flag"
 	"fmt"
+	"io"
+	"log"
 	"os"
 	"strconv"
 )
@@ -20,6 +22,9 @@ type env struct {
 var commands = map[string]func(e *env){}
 
 func main() {
+	if os.Getenv("VERIF_REND_LOG") == "" {
+		log.SetOutput(io.Discard) // rend logs every closed connection
+	}
 	if len(os.Args) < 2 {
 		fmt.Fprintln(os.Stderr, "usage: rendharness <cmd> [-tier quick|thorough] [-seed n] [-out dir] [args]")
 		os.Exit(2)
